@@ -122,6 +122,9 @@ impl DiagnosticMessage for Error {
 
                 let mut builtin = vec![Ident::new("null"), Ident::new("true"), Ident::new("false")];
                 let mut idents = idents.clone();
+                // The candidates come out of a hash map: sort them so that among equally close
+                // names the suggestion is always the same.
+                idents.sort();
 
                 idents.append(&mut builtin);
 
